@@ -13,6 +13,7 @@ type Scenario struct {
 	Faults  Faults `json:"faults"`         // fault source
 	Knob    int    `json:"knob,omitempty"` // DefaultBlockSize for this run (0: compiled-in)
 
+	Theme  string  `json:"theme,omitempty"` // informational: feature class the inputs were drawn from
 	Inputs []Input `json:"inputs,omitempty"`
 	Tasks  []Task  `json:"tasks,omitempty"`
 
